@@ -366,7 +366,14 @@ func main() {
 		}
 		var buf bytes.Buffer
 		ctx := templ.WithChildren(context.Background(), kids)
-		err := f(x, y, u, h, true, at, c, xs).Render(ctx, &buf)
+		err := func() (err error) {
+			defer func() {
+				if r := recover(); r != nil {
+					err = fmt.Errorf("panic: %%v", r)
+				}
+			}()
+			return f(x, y, u, h, true, at, c, xs).Render(ctx, &buf)
+		}()
 		es := ""
 		if err != nil {
 			es = strings.ReplaceAll(err.Error(), "\n", " ")
@@ -714,6 +721,7 @@ func main() {
 	}
 	replayed, noRebuild, rebuilds, premiseFailed, manifest, notManifest := 0, 0, 0, 0, 0, 0
 	realVsCoded, realVsHash := 0, 0
+	skippedBroken := 0
 	bySig := map[string]int{}
 	manifestBySig := map[string]int{}
 	samples := 0
@@ -726,6 +734,10 @@ func main() {
 		var cids []string
 		for _, c := range byRound[r] {
 			replayed++
+			if c.c.Broken != "" || c.p.Broken != "" || c.s.Broken != "" {
+				skippedBroken++ // already reported as Generate.AcceptedTemplateNotGenerated
+				continue
+			}
 			if _, err := handle(h, c.c.Path, at(c.c, c.c), 1); err != nil {
 				vhlib.Fatal("%v", err)
 			}
@@ -812,7 +824,7 @@ func main() {
 		"templates": nAbstract, "text_cases": len(texts), "text_cases_rejected_by_parser": rejected,
 		"dev_equals_normal_checked": sameChecked, "verbatim_checked": verbatimChecked, "accepted_not_generated": notGenerated,
 		"packages": npkg, "build_seconds": buildSecs, "rounds": maxRound,
-		"no_rebuild_checked": noRebuild, "rebuild_requested": rebuilds, "premise_failed": premiseFailed,
+		"no_rebuild_checked": noRebuild, "rebuild_requested": rebuilds, "premise_failed": premiseFailed, "skipped_not_generated": skippedBroken,
 		"generator_drift": drift, "text_file_drift": textDrift,
 		"real_differs_from_coded_rule": realVsCoded, "real_differs_from_codehash_rule": realVsHash,
 		"no_rebuild_by_model_signature": bySig, "manifest_by_signature": manifestBySig,
